@@ -278,10 +278,11 @@ def all_proper(spec, explicit_only=False, only_reachable=False):
     """Every deterministic policy reaches an absorbing state with probability 1 from every state.
     explicit_only: only states the functional `is_absorbing` declares count (what planners that
     work on the functional interface can see).  only_reachable: only from the states that can be reached with positive
-    probability from the initial support (states nothing leads to do not matter to a planner that starts there)."""
+    probability from the initial support, also through absorbing states (states nothing leads to do not matter to a planner that starts there)."""
     A = spec.abs_explicit if explicit_only else spec.absorbing()
     n = spec.n
-    starts = spec.reachable(expand_absorbing=False) if only_reachable else set(range(n))
+    # (transitions declared out of absorbing states are followed too: a planner working on the functional interface may look at them)
+    starts = spec.reachable(expand_absorbing=True) if only_reachable else set(range(n))
     for pi in det_policies(spec):
         P, r, _ = chain_of(spec, pi)
         adj = [{j for j in range(n) if P[i][j] > 0} for i in range(n)]
